@@ -4,11 +4,11 @@ use crate::json::Json;
 use crate::refmodel::net::ref_shapes;
 use crate::report::{Ctx, Meta, Report};
 use crate::spec::*;
-use crate::util::{par_map, Kv};
+use crate::util::{guard, par_map, Kv};
 
 pub fn meta(_ctx: &Ctx) -> Meta {
     Meta {
-        rule: "block layer lists {[dense],[dense,dense]} (flat) and {[conv],[conv,conv],[deconv],[conv,deconv],[conv,pool]} (spatial, shape-preserving) x activations {linear, ReLU, tanh} x loops L in 1..4 (1..9 for three of the block lists) x all 4 skip-flag combinations x all 5 accumulations x followed by a dense layer or not x fed by the network input or a preceding layer (dense -> block of spatial layers included) x 2 data valuations (exact small-integer data, inputs multiples of 60 for mean; the second valuation of linear / ReLU blocks scaled by 2^-20). Oracle: reference interpreter rep_1=f(x), rep_i=f(comb(rep_{i-1},[x])) with input skips, out=comb(rep_L,[rep_1..rep_{L-1}]) with output skips. Non-trivial = reference output has >= 2 distinct non-zero entries".into(),
+        rule: "block layer lists {[dense],[dense,dense]} (flat) and {[conv],[conv,conv],[deconv],[conv,deconv],[conv,pool]} (spatial, shape-preserving) x activations {linear, ReLU, tanh} x loops L in 1..4 (1..9 for three of the block lists) x all 4 skip-flag combinations x all 5 accumulations x followed by a dense layer or not x fed by the network input or a preceding layer (dense -> block of spatial layers included) x 2 data valuations (exact small-integer data, inputs multiples of 60 for mean; the second valuation of linear / ReLU blocks scaled by 2^-20) plus the blank sample (all-zero input) for every block, plus blocks NEAR A FIXED POINT of their repeated map (x -> g x + (1-g), g in {2, 1/2}, started 1 / 8 ulp from the fixed point, L in {8,16,22}, all flags and accumulations). Oracles: a block without skips equals, bit for bit, the plain network in which its layer list is written out L times; reference interpreter rep_1=f(x), rep_i=f(comb(rep_{i-1},[x])) with input skips, out=comb(rep_L,[rep_1..rep_{L-1}]) with output skips. Non-trivial = reference output has >= 2 distinct non-zero entries".into(),
         bound: "L <= 4, block lists of <= 2 layers, planes 3x3 and 3x4; complete product".into(),
         exhaustive: true,
         assumptions: vec!["bit-exact agreement is counted; the verdict uses tolerance 2e-6*max|reference| for linear/ReLU blocks (division by 3 is not exact) and 5e-4*max|reference| for tanh blocks".into()],
@@ -66,6 +66,44 @@ pub fn nets(thorough: bool) -> Vec<Net> {
     out
 }
 
+/// blocks whose repeated map x -> g x + (1 - g) has a fixed point at 1, started a few units in the last place away
+/// from it (g = 2 repelling, g = 1/2 attracting): successive repetitions differ by a few ulp without being equal, and
+/// all arithmetic is exact in single precision
+pub fn fixed_point_nets() -> Vec<Net> {
+    let d = L::Dense { n: 2, act: Act::Linear, bias: true, drop: None };
+    let mut out = Vec::new();
+    for loops in [8usize, 16, 22] {
+        for inskips in [false, true] {
+            for outskips in [false, true] {
+                for acc in A5 {
+                    for dense_after in [false, true] {
+                        let mut layers = vec![L::Fb { layers: vec![d.clone()], loops, inskips, outskips, acc }];
+                        if dense_after {
+                            layers.push(d.clone());
+                        }
+                        out.push(Net::new(Dims::Flat(2), layers));
+                    }
+                }
+            }
+        }
+    }
+    out
+}
+
+fn fixed_point_data(net: &Net, gain: f32) -> (Vec<P<f32>>, Vec<f32>) {
+    let one = |g: f32| P { w: vec![vec![g, 0.0, 0.0, g]], b: Some(vec![1.0 - g, 1.0 - g]), inner: vec![] };
+    let params = net
+        .layers
+        .iter()
+        .map(|l| match l {
+            L::Fb { loops, .. } => P { w: vec![], b: None, inner: (0..*loops).map(|_| one(gain)).collect() },
+            _ => one(1.0),
+        })
+        .collect();
+    let u = if gain > 1.0 { f32::EPSILON } else { 8.0 * f32::EPSILON };
+    (params, vec![1.0 + u, 1.0 - u])
+}
+
 fn fb_of(net: &Net) -> (usize, bool, bool, Acc) {
     for l in &net.layers {
         if let L::Fb { loops, inskips, outskips, acc, .. } = l {
@@ -84,11 +122,20 @@ pub fn check(seed: u64, case: &Kv, rep: &mut Report) {
     let shapes = ref_shapes(&net).unwrap();
     let (loops, inskips, outskips, acc) = fb_of(&net);
     let key = format!("{}#{}", net.name(), v);
-    let params = structural_params(&net, &shapes, seed, &key);
+    let fp = if v >= 8 { Some(fixed_point_data(&net, if v == 8 { 2.0 } else { 0.5 })) } else { None };
+    if fp.is_some() {
+        rep.count("near_fixed_point_cases", 1);
+    }
+    let params = fp.as_ref().map(|d| d.0.clone()).unwrap_or_else(|| structural_params(&net, &shapes, seed, &key));
     // odd valuations of exact (linear / ReLU) blocks use tiny inputs (2^-20): nothing may depend on the magnitude
     let tiny = v % 2 == 1 && !net.name().contains("tanh");
     let unit = if acc == Acc::Mean { 60.0 } else { 1.0 } * if tiny { 9.536_743e-7 } else { 1.0 };
-    let x = structural_input(net.input.count(), unit, seed, &key);
+    // valuation 7: the blank sample (every input exactly zero)
+    let x = match &fp {
+        Some(d) => d.1.clone(),
+        None if v == 7 => vec![0.0; net.input.count()],
+        None => structural_input(net.input.count(), unit, seed, &key),
+    };
     let cls = format!(
         "L{} {}{} {}",
         if loops == 1 { "=1" } else { ">1" },
@@ -115,12 +162,48 @@ pub fn check(seed: u64, case: &Kv, rep: &mut Report) {
         Err(Mismatch::Shape(e)) => rep.violate(format!("C11 output shape [{}]", cls.trim()), format!("{}: {}", net.name(), e), case),
         Err(Mismatch::Value(e)) => rep.violate(format!("C11 block output [{}]", cls.trim()), format!("{}: {}", net.name(), e), case),
     }
+    // without skips the block IS the plain network in which its layer list is written out L times with the unrolled
+    // copies' weights: bit for bit
+    if !inskips && !outskips {
+        let mut layers = Vec::new();
+        let mut p2: Vec<P<f32>> = Vec::new();
+        for (i, l) in net.layers.iter().enumerate() {
+            match l {
+                L::Fb { layers: list, loops, .. } => {
+                    for r in 0..*loops {
+                        for (j, il) in list.iter().enumerate() {
+                            layers.push(il.clone());
+                            p2.push(params[i].inner[r * list.len() + j].clone());
+                        }
+                    }
+                }
+                _ => {
+                    layers.push(l.clone());
+                    p2.push(params[i].clone());
+                }
+            }
+        }
+        let plain = Net::new(net.input, layers);
+        if let Ok(sh2) = ref_shapes(&plain) {
+            rep.transitions += 1;
+            let run = |n: &Net, sh: &[crate::refmodel::net::LShape], p: &[P<f32>]| build_with(n, sh, p).and_then(|lib| guard(|| lib.predict(&crate::libnet::tensor(n.input, &x)))).and_then(|t| crate::libnet::flat_dims(&t));
+            if let (Ok((_, a)), Ok((_, b))) = (run(&net, &shapes, &params), run(&plain, &sh2, &p2)) {
+                rep.count("unrolled_differential", 1);
+                if !crate::util::bits_eq(&a, &b) {
+                    rep.violate(format!("C11 block without skips differs from the written-out network [{}]", cls.trim()), format!("{}: block {:?}, written out {:?}", net.name(), &a[..a.len().min(6)], &b[..b.len().min(6)]), case);
+                }
+            }
+        }
+    }
 }
 
 pub fn run(ctx: &Ctx) -> Report {
     let ns = nets(ctx.tier.thorough());
     let vals = if ctx.tier.thorough() { 4 } else { 2 };
-    let cs: Vec<Kv> = ns.iter().flat_map(|n| (0..vals).map(move |v| Kv::new().put("net", n.name()).put("val", v))).collect();
+    let mut cs: Vec<Kv> = ns.iter().flat_map(|n| (0..vals).map(move |v| Kv::new().put("net", n.name()).put("val", v))).collect();
+    // the blank sample for every block, and blocks near a fixed point of their repeated map
+    cs.extend(ns.iter().map(|n| Kv::new().put("net", n.name()).put("val", 7)));
+    cs.extend(fixed_point_nets().iter().flat_map(|n| [8usize, 9].into_iter().map(move |v| Kv::new().put("net", n.name()).put("val", v))));
     let seed = ctx.seed;
     let chunks: Vec<&[Kv]> = cs.chunks(128).collect();
     let parts = par_map(&chunks, |_, c| {
